@@ -1,5 +1,6 @@
 import Bng.Proof.Acct
 import Bng.Proof.AcctDrain
+import Bng.Proof.AcctNoDup
 /-
   C08 — Every started session is accounted to a Stop, across outages and crashes.
 
@@ -133,6 +134,36 @@ theorem durable_first_lifetime (c : Cfg) (ops : List Op) (h : ∀ order, Op.rest
   · rw [recVol_empty_without_restart c ops h] at h1; simp at h1
   · exact Or.inr h1
 
+/-! ## an acknowledged Stop is never sent again, absent a crash -/
+
+/-- The server never accepts a second Stop for a session, unless a crash happened after the session was
+    started (`tainted` = the sessions StartSession had registered before the latest crash,
+    `tainted_is_crash_after_start`).  Graceful shutdown + restart, retry ticks racing the queue channel,
+    the shutdown drain, the orphan recovery, pending.json: none of them re-sends an acknowledged Stop.
+    Hypothesis: session ids are not reused (`registered` = the ids StartSession admitted, in order; RADIUS
+    requires Acct-Session-Id to be unique).  Every answer vector, every history, every crash point (a crash
+    only exempts the sessions that were alive across it). -/
+theorem no_dup_stop_without_crash (c : Cfg) (ops : List Op)
+    (hfresh : ((run (init c) ops).registered.map (·.1)).Nodup) :
+    ∀ s, s ∉ (run (init c) ops).tainted →
+      ((run (init c) ops).log.filter (fun r => r.kind == .stop && r.sid == s)).length ≤ 1 := by
+  intro s hs
+  have h := nd_run (nd_init c) (reg_init c) (by intro h; simp [init] at h) ops hfresh
+  exact (h.per s hs).a
+
+/-- `tainted` is exactly: a crash happened after StartSession registered the session. -/
+theorem tainted_is_crash_after_start (σ : State) (op : Op) (s : Nat) (h : s ∈ (step σ op).tainted) :
+    s ∈ σ.tainted ∨ (op = .crash ∧ s ∈ σ.registered.map (·.1)) :=
+  tainted_step σ op s h
+
+/-- In a history without any crash (graceful shutdowns and restarts allowed) no session ever has two Stops
+    accepted. -/
+theorem no_dup_stop_crash_free (c : Cfg) (ops : List Op) (hnc : Op.crash ∉ ops)
+    (hfresh : ((run (init c) ops).registered.map (·.1)).Nodup) (s : Nat) :
+    ((run (init c) ops).log.filter (fun r => r.kind == .stop && r.sid == s)).length ≤ 1 := by
+  apply no_dup_stop_without_crash c ops hfresh s
+  rw [tainted_empty_run (init c) ops hnc rfl]; simp
+
 /-! ## restart drains what is durable -/
 
 /-- After ANY history that left the process down (crash at any micro-step, or graceful shutdown): restart,
@@ -220,6 +251,11 @@ theorem gigaword_roundtrip (x : UInt64) : AcctWire.decode (AcctWire.encode x) = 
     simpa using hx
 
 /-! non-vacuity -/
+example : ∃ ops : List Op, Op.crash ∉ ops ∧ ((run (init ⟨3, 8⟩) ops).registered.map (·.1)).Nodup ∧
+    (run (init ⟨3, 8⟩) ops).log.length = 4 :=
+  ⟨[.start 1 1, .tick true, .tick true, .start 2 2, .tick true, .tick true, .stop 1 1, .tick true, .tick true,
+    .tick true, .tick true, .shutdown [], .tick true, .tick true, .tick true, .restart [], .tick true],
+   by simp, by decide, by decide⟩
 example : ∃ ops : List Op, (run (init ⟨3, 8⟩) ops).up = false ∧ (run (init ⟨3, 8⟩) ops).started ≠ [] ∧
     durableStop (run (init ⟨3, 8⟩) ops) 1 :=
   ⟨[.start 1 1, .tick true, .tick true, .crash], by decide, by decide, Or.inl (by decide)⟩
